@@ -174,11 +174,40 @@ func c12Run(c *fw.Ctx, kind, text string, optSets []int) {
 						}
 					}
 					found, valueOK := false, false
+					// a rejected section end: the offending token is that end tag (the quoted name is the open section's)
+					endTag := make([]bool, len(base.toks))
+					sectionEnd := strings.Contains(ae.Message, "section end for variable '")
+					for i := 0; i < len(base.toks); i++ {
+						if base.toks[i].typ == tokenizers.Symbol && strings.HasPrefix(base.toks[i].val, "{{") {
+							j := i + 1
+							for j < len(base.toks) && base.toks[j].typ == tokenizers.Whitespace {
+								j++
+							}
+							if j < len(base.toks) && base.toks[j].val == "/" {
+								for k := i; k < len(base.toks); k++ {
+									endTag[k] = true
+									if base.toks[k].typ == tokenizers.Symbol && strings.HasPrefix(base.toks[k].val, "}}") {
+										break
+									}
+								}
+							}
+						}
+					}
 					for i := range base.toks {
 						if ref[i][0] == l && ref[i][1] == col {
 							found = true
+							if sectionEnd {
+								valueOK = valueOK || endTag[i]
+								continue
+							}
 							if quoted == "" || base.toks[i].val == quoted || strings.EqualFold(strings.TrimSpace(base.toks[i].val), quoted) {
 								valueOK = true
+							}
+							// the parser may quote a string literal decoded (the decoded value of an ill-formed one is open)
+							if base.toks[i].typ == tokenizers.Quoted {
+								if d := refDecode(kind, base.toks[i].val); d == quoted || d == unspecifiedValue {
+									valueOK = true
+								}
 							}
 						}
 					}
@@ -293,6 +322,10 @@ func c12Classify(kind string, o int, base []tokRec, idx []int, k int, t tokRec) 
 	return "position-under-options:" + kind + ":" + tokTypeName(t.typ)
 }
 
+// template pieces for the parser's error positions: openers and closers of sections (some closers with a
+// line break inside the tag), variables, text, a lone opener and closer
+var c12TemplatePieces = []string{"{{#a}}", "{{^b}}", "{{/a}}", "{{/b}}", "{{/c\n}}", "{{/\r\nc}}", "{{ /if }}", "{{x}}", "{{{y}}}", "t", "\n", "{{", "}}", "{{!c}}", "{{#if a\n}}"}
+
 func c12OptSets(tier string) []int {
 	if tier == "thorough" {
 		all := []int{}
@@ -315,7 +348,7 @@ func init() {
 		Level: "model_checking",
 		Rule: "(also: 121 boundary characters in every short context and every pattern of <=2 characters repeated up to 1000 times, three (thorough five) patterns repeated 65535..65537 times) 4 tokenizers x every string up to the length bound over an alphabet with LF, CR, a quote, a comment opener, a multi-character symbol and an unknown character x option sets (quick: none, each single option, the parser's set, two combinations, all on; thorough: all 128); " +
 			"oracle: token k of the option-free stream sits at the forward-scan coordinates (independent rule model, cross-checked with a fresh real scanner) of offset sum(len(values before)); tokens under options are aligned with their originals through the C15 transformer and must carry the same position; Eof one column past the last character; " +
-			"positions quoted in expression syntax errors (short strings, and every sequence of <=4 (thorough 5) grammar tokens written on one line and one token per line) must be the position of a token that does not lie inside the part of the input a reference recogniser consumes as a valid beginning of an expression, and for UNKNOWN_SYMBOL exactly the position of the first offending token; positions quoted by the mustache parser must be the position of a token, with the quoted symbol or variable as its value; non-trivial = (multi-line input, option set) with >=3 tokens",
+			"positions quoted in expression syntax errors (short strings, and every sequence of <=4 (thorough 5) grammar tokens written on one line and one token per line) must be the position of a token that does not lie inside the part of the input a reference recogniser consumes as a valid beginning of an expression, and for UNKNOWN_SYMBOL exactly the position of the first offending token; positions quoted by the mustache parser (short strings, and every sequence of <=4 (thorough 5) template pieces incl. section closers with a line break inside the tag) must be the position of a token, with the quoted symbol or variable as its value, and for a rejected section end a token of a closing tag; non-trivial = (multi-line input, option set) with >=3 tokens",
 		Assume: []string{"C04 and C15 hold for the (input, option set) (otherwise skipped and counted)", "coordinates as defined by C11's forward scan"},
 		Spaces: func(tier string) []fw.Space {
 			lens := map[string]int{"generic": 4, "expression": 4, "csv": 5, "mustache": 4, "csv+latin1": 4, "csv+wide": 4}
@@ -376,6 +409,18 @@ func init() {
 						return fmt.Sprintf("%s tokenizer, input %q repeated %d times then \"<=x\"", kind, pats[int(i)%len(pats)], hugeCounts[int(i)/len(pats)])
 					}})
 			}
+			// positions quoted by the template parser: every sequence of template pieces, line breaks inside tags included
+			tl := 4
+			if tier == "thorough" {
+				tl = 5
+			}
+			sp = append(sp, fw.Space{Name: "template-error-positions", N: countStrings(len(c12TemplatePieces), tl) - 1,
+				Run: func(c *fw.Ctx, i int64) {
+					c12Run(c, "mustache", strings.Join(lexemesByIndex(c12TemplatePieces, 1+i), ""), []int{0})
+				},
+				Repr: func(i int64) string {
+					return fmt.Sprintf("template %q: position quoted in the parser's error", strings.Join(lexemesByIndex(c12TemplatePieces, 1+i), ""))
+				}})
 			// positions quoted in syntax errors: every sequence of grammar tokens, on one line and one token per line
 			seqLen := 4
 			if tier == "thorough" {
